@@ -2,7 +2,7 @@
 //!
 //! Runs the REAL `FromStr` / `Display` / `Date::new` / `Time::new` / `Interval::new` of
 //! vibesql-types (debug build: arithmetic overflow panics) under `catch_unwind`, records
-//! `Ok(value) | Err | Panic(kind)` and writes Coq shards that evaluate the model
+//! `Ok(value) | Err | Panic(kind)` (any panic is a violation since the C22 repairs) and writes Coq shards that evaluate the model
 //! (coq/theories/Value/Temporal.v) on the same inputs.  Independently the property itself
 //! (round trip; parsing never panics) is asserted on the implementation's answers.
 use serde_json::json;
@@ -127,47 +127,12 @@ fn coq_text(s: &str) -> String {
     }
 }
 
-// ---- narrow classifiers of the known defect classes (predicates on the failing input) ----
-fn nonascii_after_first_dot(s: &str) -> bool {
-    match s.find('.') {
-        Some(p) => !s[p..].is_ascii(),
-        None => false,
-    }
-}
-fn nonascii_after_last_sign(s: &str) -> bool {
-    match s.rfind(['+', '-']) {
-        Some(p) => !s[p..].is_ascii(),
-        None => false,
-    }
-}
-fn max_digit_run(s: &str) -> usize {
-    let (mut best, mut cur) = (0, 0);
-    for c in s.chars() {
-        if c.is_ascii_digit() {
-            cur += 1;
-            best = best.max(cur);
-        } else {
-            cur = 0;
-        }
-    }
-    best
-}
-fn last_word_is_to(s: &str) -> bool {
-    s.split_whitespace().last().map(|w| w.eq_ignore_ascii_case("TO")).unwrap_or(false)
-}
-fn classify_panic(kind: Kind, s: &str, pk: u8, msg: &str) -> &'static str {
-    let idx = |n: &str| msg.contains(&format!("byte index {} ", n));
-    if pk == 1 && nonascii_after_first_dot(s) && ((kind == Kind::Iv && idx("6")) || ((kind == Kind::Time || kind == Kind::Ts) && idx("9"))) {
-        "non-ascii-in-fraction"
-    } else if pk == 1 && kind == Kind::Ts && idx("2") && nonascii_after_last_sign(s) {
-        "non-ascii-in-tz-offset"
-    } else if pk == 3 && kind == Kind::Iv && max_digit_run(s) > 8 {
-        "interval-arith-overflow"
-    } else if pk == 2 && kind == Kind::Iv && last_word_is_to(s) {
-        "interval-to-last-word"
-    } else {
-        "parse-panic"
-    }
+// ---- triage: the five defect classes found by the first version of this check (non-ASCII
+// fraction / timezone offset, interval overflow, trailing TO, negative years) were repaired in
+// /repo, so ANY panic and ANY round-trip failure of a constructor-accepted value is a violation.
+// The generators that produced the witnesses of those classes are kept (regression coverage).
+fn classify_panic(_kind: Kind, _s: &str, _pk: u8, _msg: &str) -> &'static str {
+    "parse-panic"
 }
 
 struct Ctx {
@@ -277,7 +242,8 @@ impl Ctx {
                 self.sum.count(&format!("roundtrip_{}", kind.name()));
                 let ok = matches!(&o, Obs::Val(w) if same(v, w));
                 if !ok && !matches!(o, Obs::Panic(..)) {
-                    let class = if year < 0 { "negative-year" } else { "roundtrip-mismatch" };
+                    let _ = year;
+                    let class = "roundtrip-mismatch";
                     let id = self.next_id - 1;
                     self.sum.finding(class, id, format!("{:?} prints as {:?}, which parses to {:?}", v, text, o), json!({"value": format!("{:?}", v), "text": text}));
                 }
